@@ -29,6 +29,8 @@ const (
 	MTDockerConfig = "application/vnd.docker.container.image.v1+json"
 	MTDockerLayer  = "application/vnd.docker.image.rootfs.diff.tar.gzip"
 	MTDockerForeign = "application/vnd.docker.image.rootfs.foreign.diff.tar.gzip"
+	MTDockerSchema1 = "application/vnd.docker.distribution.manifest.v1+json"
+	MTOCIArtifact   = "application/vnd.oci.artifact.manifest.v1+json"
 )
 
 // Desc is a descriptor as this package serialises it.
@@ -268,6 +270,48 @@ func (g *G) Artifact(subject *Node, artType string) *Node {
 	return n
 }
 
+// Schema1 generates an unsigned Docker schema1 manifest (no config object; layers as fsLayers).
+func (g *G) Schema1() *Node {
+	n := &Node{Kind: "schema1", MediaType: MTDockerSchema1}
+	nl := 1 + g.c(3, "s1layers")
+	var fs []map[string]string
+	var hist []map[string]string
+	for i := 0; i < nl; i++ {
+		b := g.blob(MTDockerLayer)
+		b.Desc.Data = ""
+		n.Blobs = append(n.Blobs, b)
+		fs = append(fs, map[string]string{"blobSum": b.Desc.Digest})
+		g.n++
+		hist = append(hist, map[string]string{"v1Compatibility": fmt.Sprintf(`{"id":"%064x","created":"2020-01-01T00:00:00Z"}`, g.n)})
+	}
+	fields := []kv{{"schemaVersion", 1}, {"name", "proj/app"}, {"tag", "v1"}, {"architecture", "amd64"}, {"fsLayers", fs}, {"history", hist}}
+	n.Raw = g.marshal(fields)
+	n.Digest = regmodel.Digest(g.Alg, n.Raw)
+	return n
+}
+
+// OCIArtifact generates the (deprecated but supported) OCI artifact manifest: blobs, no config.
+func (g *G) OCIArtifact(subject *Node, artType string) *Node {
+	n := &Node{Kind: "oci-artifact", MediaType: MTOCIArtifact, ArtType: artType}
+	var blobs []Desc
+	for i, k := 0, 1+g.c(2, "ablobs"); i < k; i++ {
+		b := g.blob("application/vnd.example.data")
+		b.Desc.Data = ""
+		n.Blobs = append(n.Blobs, b)
+		blobs = append(blobs, b.Desc)
+	}
+	g.n++
+	n.Annot = map[string]string{"org.example.serial": fmt.Sprint(g.n)}
+	fields := []kv{{"mediaType", n.MediaType}, {"artifactType", artType}, {"blobs", blobs}, {"annotations", n.Annot}}
+	if subject != nil {
+		n.Subject = subject.Digest
+		fields = append(fields, kv{"subject", Desc{MediaType: subject.MediaType, Digest: subject.Digest, Size: len(subject.Raw)}})
+	}
+	n.Raw = g.marshal(fields)
+	n.Digest = regmodel.Digest(g.Alg, n.Raw)
+	return n
+}
+
 var plats = []Platform{{"amd64", "linux", ""}, {"arm64", "linux", "v8"}, {"arm", "linux", "v7"}, {"amd64", "windows", ""}, {"s390x", "linux", ""}}
 
 // Index generates an index over children.
@@ -307,6 +351,7 @@ type Opts struct {
 	NoDigestTags bool
 	NoExternal   bool
 	NoBlobKids   bool
+	NoLegacy     bool // no schema1 and no OCI artifact manifests
 }
 
 // Graph generates an image graph with optional referrers and digest-tags.
@@ -316,7 +361,17 @@ func (g *G) Graph(o Opts) *Graph {
 		g.NoExt = true
 	}
 	docker := g.c(3, "family") == 2
-	switch g.c(5, "shape") {
+	shape := g.c(7, "shape")
+	if o.NoLegacy && shape >= 5 {
+		shape -= 5
+	}
+	switch shape {
+	case 5:
+		gr.Shape = "schema1"
+		gr.Root = g.Schema1()
+	case 6:
+		gr.Shape = "index+oci-artifact"
+		gr.Root = g.Index(false, []*Node{g.Image(false), g.OCIArtifact(nil, "application/vnd.example.art")}, nil)
 	case 0:
 		gr.Shape = "image"
 		gr.Root = g.Image(docker)
